@@ -2311,6 +2311,12 @@ class DiskObjectStore(PackBasedObjectStore):
             # pack, in which case close() raises; the files must go anyway.
             with suppress(BufferError, OSError):
                 final_pack.close()
+            # A rescan of the pack directory during the validation pass
+            # (a lookup that missed) may already have put the new pack into
+            # the cache; it must not keep serving the rejected objects.
+            stale = self._pack_cache.get(os.path.basename(pack_base_name))
+            if stale is not None:
+                self._evict_pack(stale)
             with suppress(FileNotFoundError):
                 os.remove(target_pack_path)
             with suppress(FileNotFoundError):
